@@ -139,7 +139,9 @@ func runC20(r *Run) {
 	if debitSale != nil && creditSale != nil {
 		g := boolCallG("sale <= offering", true, []string{"(data/balance.Coin).LessThanEqualCoin"},
 			func(v ssa.Value) bool { return isSale(v) },
-			func(v ssa.Value) bool { return derivesFrom(v, func(y ssa.Value) bool { return msgF(p, "Offering.Value")(y) }) })
+			func(v ssa.Value) bool {
+				return derivesFrom(v, func(y ssa.Value) bool { return msgF(p, "Offering.Value")(y) })
+			})
 		r.guardOb("C20.purchase", pu, "sale-price transfer", func(fn *ssa.Function, ins ssa.Instruction) bool {
 			return ins == ssa.Instruction(debitSale) || ins == ssa.Instruction(creditSale)
 		}, g, "a name can be bought for less than its asking price")
